@@ -66,6 +66,13 @@ pub fn run(args: &Args) {
                 loan-heavy operations drawn online. non-trivial = at least 3 successful operations of 3 kinds and a strict share-price change; distinct by hash".into();
     let mut rng = Rng::new(args.seed);
     if let Some(path) = &args.replay {
+        if crate::w_admin::read_replay(path)["failing_input"]["kind"] == "owner_borrower_deposit_during_loan" {
+            owner_borrower_probe(&mut out);
+            let bad = !out.monitor_failures.is_empty();
+            for f in &out.monitor_failures { println!("REPLAY property predicate false: {}", f["what"]); }
+            out.finish();
+            std::process::exit(if bad { 1 } else { 0 });
+        }
         match parse_replay(path) {
             Some((cw20, fees, funds, ops)) => {
                 run_history(&mut out, "C06", "loans", &mut rng, Mix::Loans, cw20, fees, funds, Source::Fixed(ops));
@@ -78,6 +85,7 @@ pub fn run(args: &Args) {
             None => { eprintln!("cannot parse replay file"); std::process::exit(2); }
         }
     }
+    owner_borrower_probe(&mut out);
     // corpus: the probed nested-loan witness, both asset kinds
     for cw20 in [false, true] {
         let (f, fu, ops) = crate::c05::nested_witness();
@@ -154,4 +162,53 @@ pub fn run(args: &Args) {
         } else if a != b { out.monitor_fail("C06", "a reverted router loan changed balances or ledgers", replay.clone()); }
     }
     out.finish();
+}
+
+/// A borrower that OWNS the vault (ownership handed to the borrower contract) reconfigures the vault from inside its callback
+/// (flash loans off / on, deposits on) and tries to deposit while its loan is outstanding. Whatever the switches say in between, a
+/// deposit during a loan is refused: uncaught it fails the transaction, caught it leaves the loan exactly as it is without the attempt.
+/// (Monitor only: the vault machine's scripts do not contain configuration updates.)
+fn owner_borrower_probe(out: &mut Out) {
+    use cosmwasm_std::Binary;
+    use serde_json::json;
+    for cw20 in [false, true] {
+        let fees = (DEC / 1000, 3 * DEC / 1000, 0);
+        let fresh = || -> Option<VaultWorld> {
+            let mut w = deploy(cw20, fees, [1_000_000_000, 5_000_000_000, 5_000_000_000, 5_000_000_000, 2_000_000_000]).ok()?;
+            if w.exec(&Op::Deposit { u: 6, amount: u(1_000_000), sent: u(1_000_000) }) != 0 { return None; }
+            // the factory owner hands the vault to the borrower contract
+            if w.exec(&Op::Update { u: I_FOWNER, via_factory: true, p: UParams { owner: Some(I_ADV), ..Default::default() } }) != 0 { return None; }
+            Some(w)
+        };
+        let Some(probe) = fresh() else { out.count("owner_borrower:setup_failed"); continue };
+        let vault = probe.vault.to_string();
+        let upd = |fl: Option<bool>, dep: Option<bool>| -> Act {
+            Act::Raw { target: vault.clone(), msg: Binary::from(serde_json::to_vec(&json!({"update_config": {"flash_loan_enabled": fl, "deposit_enabled": dep, "withdraw_enabled": null,
+                "new_owner": null, "new_vault_fees": null, "new_fee_collector_addr": null}})).unwrap()) }
+        };
+        let loan = 990_000u128;
+        let repay = Act::RepayQ { neg: false, delta: Uint128::zero() };
+        let run = |w: &mut VaultWorld, inner: Vec<Act>| -> i64 { w.exec(&Op::Run { script: vec![Act::Loan { amount: u(loan), script: inner }] }) };
+        // control: the owner-borrower toggles the switch and back, no deposit
+        let Some(mut ctl) = fresh() else { continue };
+        let c0 = run(&mut ctl, vec![upd(Some(false), None), upd(Some(true), Some(true)), repay.clone()]);
+        if c0 != 0 { out.count("owner_borrower:control_failed"); continue; }
+        let ctl_dump = ctl.dump();
+        for d in [10_000u128, 1, 1_000_000] {
+            let replay = json!({"kind": "owner_borrower_deposit_during_loan", "vault_asset_cw20": cw20, "loan": loan.to_string(), "deposit": d.to_string(),
+                                "script": "loan { update_config(flash_loan_enabled=false); deposit; update_config(flash_loan_enabled=true, deposit_enabled=true); repay quote }"});
+            let Some(mut a) = fresh() else { continue };
+            let d0 = a.dump();
+            let code = run(&mut a, vec![upd(Some(false), None), Act::Deposit { amount: u(d) }, upd(Some(true), Some(true)), repay.clone()]);
+            out.monitor_evals += 1;
+            out.count(if code == 0 { "owner_borrower:deposit_during_loan_accepted" } else { "owner_borrower:deposit_during_loan_rejected" });
+            if code == 0 { out.monitor_fail("C06", "a deposit was accepted while a flash loan was outstanding (the vault's owner switched flash loans off inside its callback)", replay.clone()); }
+            else if a.dump() != d0 { out.monitor_fail("C06", "a rejected loan transaction changed the vault", replay.clone()); }
+            let Some(mut b) = fresh() else { continue };
+            let code = run(&mut b, vec![upd(Some(false), None), Act::Try { script: vec![Act::Deposit { amount: u(d) }] }, upd(Some(true), Some(true)), repay.clone()]);
+            out.monitor_evals += 1;
+            if code != 0 { out.monitor_fail("C06", "a refused (and caught) deposit during a loan made the loan fail", replay.clone()); }
+            else if b.dump() != ctl_dump { out.monitor_fail("C06", "a deposit attempted during a loan left a trace (shares minted / balances moved)", replay.clone()); }
+        }
+    }
 }
